@@ -27,9 +27,10 @@ const (
 	opTables
 	opData
 	opPacket
+	opChurn // n times: add a stream with an automatic PID and remove it again (nothing is written)
 )
 
-var opNames = []string{"Add", "Remove", "SetPCRPID", "WriteTables", "WriteData", "WritePacket"}
+var opNames = []string{"Add", "Remove", "SetPCRPID", "WriteTables", "WriteData", "WritePacket", "Churn"}
 
 const pmtPID = 0x1000
 
@@ -56,14 +57,15 @@ type muxOp struct {
 	stype astits.StreamType
 	descs []*astits.Descriptor
 	// target selection for Remove / SetPCR / Data
-	sel    int
-	bad    bool
-	badPID uint16
+	sel     int
+	bad     bool
+	badPID  uint16
 	badGone bool // bad: prefer a PID that was added and removed earlier in the history (when there is one)
 	// Data
 	pes      *ref.PES
 	af       *ref.AF
 	strayOpt bool // hand an optional header struct to the Muxer although the stream id (0xBE/0xBF) has none
+	churn    int  // opChurn: number of add/remove cycles
 	reuseAF  bool // hand over the adaptation field struct (same pointer, same content) of the previous successful WriteData that had one
 	// Packet
 	pkt *astits.Packet
@@ -289,6 +291,12 @@ func genMuxHistory(t *rapid.T, prof muxProfile) (period int, setPeriod bool, ops
 		// WriteData calls would only exercise the error paths
 		add := muxOp{kind: opAdd, auto: gen.Bool(t, "setup_auto"), pid: explicitPIDPool[gen.Uniform(t, len(explicitPIDPool), "setup_pid")], stype: drawStreamType(t)}
 		ops = append([]muxOp{add, {kind: opSetPCR, sel: 0}}, ops...)
+		if gen.Chance(t, 5, "setup_churn") {
+			// a long-lived Muxer: so many automatic PIDs were handed out (and given back) that the next ones are around
+			// the PMT's own PID 0x1000
+			ops[0].auto = true
+			ops = append([]muxOp{{kind: opChurn, churn: pmtPID - 0x100 - gen.Uniform(t, 3, "setup_churn_short"), stype: astits.StreamTypeMPEG2Audio}}, ops...)
+		}
 	}
 	return
 }
@@ -601,6 +609,38 @@ func runMuxHistoryUnguarded(period int, setPeriod bool, ops []muxOp, w *writerSp
 				lastAF, lastAFModel = d.AdaptationField, af
 			}
 			st.desc = fmt.Sprintf("WriteData(pid=%#x sid=%#x hdr=%d payload=%d af=%s)", pid, op.pes.StreamID, op.pes.HeaderSize(), len(op.pes.Payload), afDesc(af))
+		case opChurn:
+			done := 0
+			for ; done < op.churn; done++ {
+				es := astits.PMTElementaryStream{StreamType: op.stype}
+				if st.err = m.AddElementaryStream(es); st.err != nil {
+					break
+				}
+				addAuto := func(m *astits.Muxer) { _ = m.AddElementaryStream(es) }
+				for cfg.find(predAuto) >= 0 || predAuto == pmtPID {
+					predAuto++
+				}
+				pid := predAuto
+				if m.RemoveElementaryStream(pid) != nil {
+					// not the PID the model expected: learn it from the PMT of a scratch replay
+					p, ok := sniffAutoPID(append(replay[:len(replay):len(replay)], addAuto), len(cfg.streams))
+					if !ok {
+						st.err = fmt.Errorf("harness: automatic PID of churn cycle %d unknown", done)
+						break
+					}
+					pid = p
+					if st.err = m.RemoveElementaryStream(pid); st.err != nil {
+						break
+					}
+				}
+				if pid >= predAuto {
+					predAuto = pid + 1
+				}
+				rp := pid
+				replay = append(replay, addAuto, func(m *astits.Muxer) { _ = m.RemoveElementaryStream(rp) })
+			}
+			st.changed = done > 0
+			st.desc = fmt.Sprintf("Churn(%d x Add(auto)+Remove) => next automatic PID %#x", done, predAuto)
 		case opPacket:
 			st.pid = op.pkt.Header.PID
 			st.n, st.err = m.WritePacket(op.pkt)
